@@ -30,9 +30,9 @@ type VerifNode struct {
 	Stopped bool
 }
 
-func (n *VerifNode) Tick()                                                { n.RN.Tick() }
-func (n *VerifNode) Campaign(ctx context.Context) error                   { return n.RN.Campaign() }
-func (n *VerifNode) Propose(ctx context.Context, data []byte) error       { return n.RN.Propose(data) }
+func (n *VerifNode) Tick()                                          { n.RN.Tick() }
+func (n *VerifNode) Campaign(ctx context.Context) error             { return n.RN.Campaign() }
+func (n *VerifNode) Propose(ctx context.Context, data []byte) error { return n.RN.Propose(data) }
 func (n *VerifNode) ProposeConfChange(ctx context.Context, cc raftpb.ConfChangeI) error {
 	return n.RN.ProposeConfChange(cc)
 }
@@ -45,9 +45,12 @@ func (n *VerifNode) ApplyConfChange(cc raftpb.ConfChangeI) *raftpb.ConfState {
 func (n *VerifNode) TransferLeadership(ctx context.Context, lead, transferee uint64) {
 	n.RN.TransferLeader(transferee)
 }
-func (n *VerifNode) ReadIndex(ctx context.Context, rctx []byte) error { n.RN.ReadIndex(rctx); return nil }
-func (n *VerifNode) Status() raft.Status                              { return n.RN.Status() }
-func (n *VerifNode) ReportUnreachable(id uint64)                      { n.RN.ReportUnreachable(id) }
+func (n *VerifNode) ReadIndex(ctx context.Context, rctx []byte) error {
+	n.RN.ReadIndex(rctx)
+	return nil
+}
+func (n *VerifNode) Status() raft.Status         { return n.RN.Status() }
+func (n *VerifNode) ReportUnreachable(id uint64) { n.RN.ReportUnreachable(id) }
 func (n *VerifNode) ReportSnapshot(id uint64, status raft.SnapshotStatus) {
 	n.RN.ReportSnapshot(id, status)
 }
@@ -59,6 +62,10 @@ func VerifThresholds(snapCount, catchUp uint64) (oldCount, oldCatchUp uint64) {
 	defaultSnapshotCount, snapshotCatchUpEntriesN = snapCount, catchUp
 	return
 }
+
+// VerifJoin: the next VerifNewRaftNode builds a node started with --join (startRaft: RestartNode
+// without bootstrap peers even though there is no WAL yet).
+var VerifJoin bool
 
 // VerifNewRaftNode builds a node whose directories live under dir.  It performs the part of
 // startRaft up to the creation of the raft state machine (snapshotter, WAL replay, raft.Config
@@ -96,7 +103,7 @@ func VerifNewRaftNode(id int, peers []string, dir string, getSnapshot func() ([]
 	c.Logger = verifQuiet{}
 	var rn *raft.RawNode
 	var err error
-	if !oldwal {
+	if !oldwal && !VerifJoin {
 		rpeers := make([]raft.Peer, len(rc.Peers))
 		for i := range rpeers {
 			rpeers[i] = raft.Peer{ID: uint64(i + 1)}
@@ -126,7 +133,7 @@ func VerifNewRaftNode(id int, peers []string, dir string, getSnapshot func() ([]
 	// peers are do-nothing stubs (the simulator carries the messages), so that applying a
 	// membership change can call the real AddPeer / RemovePeer.
 	var pids []types.ID
-	for i := range rc.Peers {
+	for i := 0; i < len(rc.Peers)+2; i++ { // two spare ids for nodes added later
 		if i+1 != rc.id {
 			pids = append(pids, types.ID(i+1))
 		}
@@ -151,8 +158,8 @@ func (rc *RaftNode) VerifHandleReady(vn *VerifNode, rd raft.Ready) bool {
 	return rc.verifHandleReady(rd)
 }
 
-func (rc *RaftNode) VerifAppliedIndex() uint64  { return rc.appliedIndex }
-func (rc *RaftNode) VerifSnapshotIndex() uint64 { return rc.snapshotIndex }
+func (rc *RaftNode) VerifAppliedIndex() uint64         { return rc.appliedIndex }
+func (rc *RaftNode) VerifSnapshotIndex() uint64        { return rc.snapshotIndex }
 func (rc *RaftNode) VerifStorage() *raft.MemoryStorage { return rc.raftStorage }
 func (rc *RaftNode) VerifCloseWAL() {
 	if rc.wal != nil {
